@@ -25,9 +25,12 @@ if [ -n "$demo" ]; then
 fi
 git -C /repo worktree remove --force "$wt"
 # run the check against /repo with the change applied
+cp /verif/evidence/$prop.json /tmp/sv/$name.evidence.bak 2>/dev/null
 git -C /repo apply "$dst/patch.diff" || { echo "patch does not apply to /repo"; exit 1; }
 (cd /verif && ./check "$prop" > /tmp/sv/$name.check.log 2>&1); chk=$?
 git -C /repo checkout -- . 
+# the evidence file must describe the unchanged tree: put the previous one back
+[ -f /tmp/sv/$name.evidence.bak ] && cp /tmp/sv/$name.evidence.bak /verif/evidence/$prop.json
 viol=$(grep -c '^VIOLATION' /tmp/sv/$name.check.log)
 rep=$(grep '^VIOLATION' /tmp/sv/$name.check.log | head -1)
 [ -n "$rep" ] && cp "$(echo "$rep" | sed 's/.*replay=\([^ ]*\).*/\1/')" "$dst/replay.txt" 2>/dev/null
